@@ -15,5 +15,31 @@ if "SEEDED_TABLE" in s:
     s = s.replace("SEEDED_TABLE", "<!-- seeded:begin -->\n" + table + "\n<!-- seeded:end -->")
 else:
     s = re.sub(r"<!-- seeded:begin -->.*?<!-- seeded:end -->", "<!-- seeded:begin -->\n" + table + "\n<!-- seeded:end -->", s, flags=re.S)
+# own mutation campaign (tools/mutate.py): one row per mutant
+ASSESS = {
+    "S09": "equivalent (u_t_ < w always holds: the added factor is 1)",
+    "S18": "control (whitespace)", "P02": "control (whitespace)", "E03": "control (LabelEncoder sorts its classes)",
+    "L01": "equivalent for every sentinel / dtype combination check_missing_label accepts",
+    "L03": "allowed by C17 (\"a class with maximal vote\": any tie-break is fine)",
+    "P08": "allowed: the seed derivation is not part of any listed property (results stay reproducible)",
+    "R01": "equivalent (a zero fallback std is reset to 1 two lines later)",
+    "R02": "equivalent (idx_ is always re-assigned, never mutated in place)",
+    "I03": "equivalent (y_ is always re-assigned, never mutated in place)",
+}
+mc = os.path.join(HERE, "seeded", "mutation_campaign.json")
+if os.path.exists(mc):
+    d = json.load(open(mc))
+    mrows = ["| mutant | site | change | checks run | outcome |", "|---|---|---|---|---|"]
+    for k in sorted(d):
+        v = d[k]
+        out = ("caught by " + ", ".join(v["caught_by"])) if v["caught_by"] else ("not flagged - " + ASSESS.get(k, "MISSED"))
+        mrows.append("| %s | %s | %s | %s | %s |" % (k, v["path"].replace("skactiveml/", ""), v["note"].replace("|", "/"),
+                                                  ", ".join(sorted(v["checks"])), out))
+    n_c = sum(1 for v in d.values() if v["caught_by"])
+    head = ("%d mutants: %d flagged, %d not flagged (equivalent mutants, changes the properties allow, and controls "
+            "that must not be flagged)\n\n" % (len(d), n_c, len(d) - n_c))
+    mt = head + "\n".join(mrows)
+    if "<!-- mutants:begin -->" in s:
+        s = re.sub(r"<!-- mutants:begin -->.*?<!-- mutants:end -->", "<!-- mutants:begin -->\n" + mt + "\n<!-- mutants:end -->", s, flags=re.S)
 open(p, "w").write(s)
 print(table)
